@@ -35,7 +35,7 @@ def run(ctx):
             reqs2.append(f"den {t} {p}")
     model.update(zip(reqs2, core.run_driver(ctx, reqs2)))
     L = 2 * maxlen + 2
-    schemes = vers.pick_schemes(r, L, want=3 if ctx.tier == "quick" else 6, always=("SemverVersion", "PypiVersion"))
+    schemes = vers.pick_schemes(r, L, want=4 if ctx.tier == "quick" else 7, always=("SemverVersion", "PypiVersion", "MavenVersion"))
     ctx.say("schemes:", [s.name for s in schemes], "well-formed non-vacuous patterns:", len(good), "of", len(cases))
     evals = 0
     diffs, violations, samples = [], [], []
